@@ -168,17 +168,15 @@ def mismatches(q, exp):
 
 
 def monotone_violations(x, q):
-    """Pairs (i, j) with x[i] <= x[j] but q[i] > q[j] (adjacent in the sorted order); exact, no tolerance."""
+    """Pairs (i, j), adjacent in the sorted order, with x[i] <= x[j] but q[i] > q[j], or x[i] == x[j] and
+    q[i] != q[j]; exact, no tolerance."""
     x = np.asarray(x, dtype=float)
     q = np.asarray(q)
     order = np.argsort(x, kind='stable')
     xs, qs = x[order], q[order]
-    bad = np.nonzero(qs[1:] < qs[:-1])[0]
-    out = [(int(order[i]), int(order[i + 1])) for i in bad]
-    # equal inputs must give equal outputs (a function of the input)
-    eq = np.nonzero((xs[1:] == xs[:-1]) & (qs[1:] != qs[:-1]))[0]
-    out += [(int(order[i]), int(order[i + 1])) for i in eq if i not in set(bad.tolist())]
-    return out
+    # decreasing output along the sorted input, or equal inputs with different outputs (q is a function of x)
+    bad = np.nonzero((qs[1:] < qs[:-1]) | ((xs[1:] == xs[:-1]) & (qs[1:] != qs[:-1])))[0]
+    return [(int(order[i]), int(order[i + 1])) for i in bad]
 
 
 # ----------------------------------------------------------------------------- refresh schedule
